@@ -131,6 +131,17 @@ inline std::vector<ArgSpec> wrap_menu() {
   { SCell c; c.push_back(GE3(1, 0, 0, KC(2, -2))); c.push_back(LE3(1, 0, 0, KC(2, 1))); c.push_back(GE3(0, 1, 0, KC(1, -2))); c.push_back(LE3(0, 1, 0, KC(1, 1)));
     c.push_back(EQ3(1, 1, -1, O));
     m.push_back(A("3d 254<=x<=257, 126<=y<=129, z=x+y", c, false, false, 3)); }
+  // three wrapped variables: the first two make the collective complexity exceed the threshold (2 x 2 > 2, 5 x 5 > 16),
+  // the third one lies in quadrant 1 / straddles a boundary and must still be translated or given the full range
+  { SCell c; c.push_back(GE3(1, 0, 0, KC(2, -2))); c.push_back(LE3(1, 0, 0, KC(2, 1))); c.push_back(GE3(0, 1, 0, KC(2, -2))); c.push_back(LE3(0, 1, 0, KC(2, 1)));
+    c.push_back(GE3(0, 0, 1, KC(2, 0))); c.push_back(LE3(0, 0, 1, KC(2, 2)));
+    m.push_back(A("3d box 254<=x,y<=257, 256<=z<=258", c, false, false, 3)); }
+  { SCell c; c.push_back(GE3(1, 0, 0, KC(2, -2))); c.push_back(LE3(1, 0, 0, KC(2, 1))); c.push_back(GE3(0, 1, 0, KC(0, -2))); c.push_back(LE3(0, 1, 0, KC(0, 1)));
+    c.push_back(EQ3(1, 1, -1, O));
+    m.push_back(A("3d 254<=x<=257, -2<=y<=1, z=x+y", c, false, false, 3)); }
+  { SCell c; c.push_back(GE3(1, 0, 0, KC(0, -3))); c.push_back(LE3(1, 0, 0, KC(6, 2))); c.push_back(EQ3(1, -1, 0, O));
+    c.push_back(GE3(0, 0, 1, KC(2, 0))); c.push_back(LE3(0, 0, 1, KC(2, 2)));
+    m.push_back(A("3d diag -3<=x<=770, y=x, 256<=z<=258", c, true, true, 3)); }   // thorough tier only (threshold 16)
   return m;
 }
 
